@@ -33,7 +33,7 @@ func c15cases(env *core.Env) []c15case {
 	for i := 0; i < env.Pick(150, 2500); i++ {
 		cs = append(cs, c15case{"porcupine", i})
 	}
-	for i := 0; i < env.Pick(80, 1000); i++ {
+	for i := 0; i < env.Pick(240, 2400); i++ { // eight programs share these
 		cs = append(cs, c15case{"hammer", i})
 	}
 	for i := 0; i < c15schedCount(env); i++ {
